@@ -116,6 +116,10 @@ type Config struct {
 	MaxSim   time.Duration
 	KeepLog  bool
 	Root     string // sandbox root, stripped from logged paths
+	// Settle, if set, is called after the clock was advanced so that timer
+	// callbacks due at that instant (context deadlines) have run before the
+	// scheduler looks at wake conditions (synctest.Wait).
+	Settle func()
 	// Observer, if set, sees every point before the task parks (probes, monitors).
 	Observer func(t *Task, op Op, fault string)
 }
@@ -505,6 +509,9 @@ func (s *Sim) Run() {
 				return
 			}
 			time.Sleep(earliest.Sub(now))
+			if s.cfg.Settle != nil {
+				s.cfg.Settle()
+			}
 			s.Log("clock", "", fmt.Sprint(earliest.Sub(s.start)), "")
 			continue
 		}
